@@ -279,7 +279,7 @@ class Prover:
         locs = [r[1] for r, p in paths if r[0] == "loc"]
         if len(locs) != 1:
             return None
-        e = A.R.local(locs[0])
+        e = A.R.init_expr(locs[0])
         # peel into_iter / rev / moves
         for _ in range(6):
             if e[0] == "call" and ((e[1] or "").endswith("IntoIterator::into_iter") or (e[1] or "").endswith("Iterator::rev")) and e[3]:
@@ -308,7 +308,7 @@ class Prover:
         locs = [r[1] for r, p in expr_paths(call[3][0]) if r[0] == "loc"]
         if len(locs) != 1:
             return None
-        e = A.R.local(locs[0])
+        e = A.R.init_expr(locs[0])
         for _ in range(8):
             if e[0] == "call" and e[3] and any((e[1] or "").endswith(x) for x in ("IntoIterator::into_iter", "Iterator::enumerate", "slice::<impl [T]>::iter")):
                 e = e[3][0]
